@@ -288,6 +288,56 @@ def _x86(ctx):
     return f, flow, pa, pb, tname, vcls, spec
 
 
+def _vector_relation(ctx, f, flow, r, A, B, pa, pb, vcls, spec):
+    """The conditions on the two (case-folded) names under which this `return True` is reached, evaluated on the finite
+    vocabulary of vector register names (class prefix x number): they must relate two different names exactly when the
+    numbers agree and both classes overlap architecturally. Returns None when no condition on the names is present."""
+    from .. import consteval
+    upper = any(U(x.value or ast.Constant(None)).endswith(".upper()") for x in flow.all_defs.get(A, []))
+    conds, skipped = [], []
+    for e, pol in C.norm_fact_nodes(r):
+        names = {x.id for x in ast.walk(e) if isinstance(x, ast.Name)}
+        if not names & {A, B, pa, pb}:
+            continue
+        if names <= {A, B} and not any(isinstance(x, ast.Call) and not (isinstance(x.func, ast.Attribute) and isinstance(x.func.value, (ast.Name, ast.Subscript, ast.Call, ast.Constant)))
+                                        and not (isinstance(x.func, ast.Name) and x.func.id in ("len", "str", "int", "bool")) for x in ast.walk(e)):
+            conds.append((e, pol))
+        elif C.is_call_to(e, "is_vector_register", "is_basic_gpr", "is_gpr") or "re.match" in U(e) or "re.fullmatch" in U(e) or ".group(" in U(e):
+            continue        # class tests of the operands; the numbered-gpr regex (never matches a vector name)
+        else:
+            skipped.append(U(e))
+    if not [c for c in conds if c[1]]:
+        return None
+    nums = ("0", "1", "15", "31")
+    names = [(c, n, (c + n).upper() if upper else (c + n).lower()) for c in vcls for n in nums]
+    over = set(spec["vector_overlapping"])
+    wrong = []
+    try:
+        for c1, n1, s1 in names:
+            for c2, n2, s2 in names:
+                if s1 == s2:
+                    continue        # equal names are the "same name" family
+                holds = all(bool(consteval.ev(e, {A: s1, B: s2})) == pol for e, pol in conds)
+                want = n1 == n2 and (c1 == c2 or (c1 in over and c2 in over))
+                if holds != want:
+                    wrong.append((s1, s2, holds))
+    except (consteval.Unsupported, consteval.Raised) as x:
+        ctx.unknown("R4", "vector condition", f.where(r), "the condition on the two names cannot be evaluated (%s)" % x)
+        return "unknown"
+    if wrong and skipped:
+        ctx.unknown("R4", "vector condition", f.where(r), "the name condition alone relates e.g. %s / %s (%s), but further "
+                    "conditions (%s) are not evaluated" % (wrong[0][0], wrong[0][1], wrong[0][2], skipped[:2]))
+        return "unknown"
+    s1, s2, h = wrong[0] if wrong else ("", "", None)
+    ctx.check(not wrong, "R1", "the vector condition relates exactly the architecturally overlapping registers (evaluated on %d name pairs)" % (
+        len(names) * (len(names) - 1)), f.where(r),
+        "under the conditions %s the registers %s and %s are reported %s, but architecturally they %s (only %s overlap, and only with "
+        "equal numbers); %d of the evaluated name pairs are wrong" % (
+            [("" if p else "not ") + U(e) for e, p in conds][:3], s1, s2, "dependent" if h else "independent",
+            "do not overlap" if h else "overlap", sorted(over), len(wrong)), f.qname, "vector suffix classes")
+    return "ok"
+
+
 def _x86_returns(ctx, f, flow, pa, pb, tname, vcls, spec):
     ctx.rule("R4", "every `return True` is guarded by a same-family condition; each family has one")
     fam_seen = set()
@@ -327,6 +377,9 @@ def _x86_returns(ctx, f, flow, pa, pb, tname, vcls, spec):
                       "dropping the first character makes %s alias; architecturally only %s overlap" % (
                           [sorted(x) for x in same if len(x) > 1], spec["vector_overlapping"]),
                       f.qname, "vector suffix classes")
+        elif ({"self.is_vector_register(%s)" % pa, "self.is_vector_register(%s)" % pb} <= pos and A.isidentifier() and B.isidentifier()
+              and _vector_relation(ctx, f, flow, r, A, B, pa, pb, vcls, spec) is not None):
+            fam = "vector"
         elif tname is None and {"self.is_basic_gpr(%s)" % pa, "self.is_basic_gpr(%s)" % pb} <= pos \
                 and _basic_gpr_guard(ctx, f, flow, r, A, B) is not None:
             kind_ = _basic_gpr_guard(ctx, f, flow, r, A, B)[0]
@@ -431,6 +484,12 @@ def _x86_returns(ctx, f, flow, pa, pb, tname, vcls, spec):
                 elif isinstance(lk, ast.Subscript) and isinstance(lk.slice, ast.Name):
                     base = lk.slice
                 ok = _norm_origin(flow, base)
+                if not ok and not isinstance(base, ast.Name):
+                    # an expression over already normalised names (name.lstrip(..), name[0] in "XYZ", ...)
+                    inner = [x for x in ast.walk(base) if isinstance(x, ast.Name) and isinstance(x.ctx, ast.Load)
+                             and any(".name" in o for o in flow.origin_text(x))]
+                    if inner:
+                        ok = all(_norm_origin(flow, x) for x in inner)
                 ctx.check(ok, "R3", "operand %s of `%s` is case-normalised" % (t, U(n)), f.where(n),
                           "operand %s of the comparison `%s` derives from a register name that was not passed "
                           "through upper()/lower()" % (t, U(n)), f.qname, U(n))
